@@ -115,6 +115,40 @@ class ReprBoomError(Exception):
     pass
 
 
+class SlotStoreNM(NodeMixin):
+    """User NodeMixin class that keeps even the mixin's own bookkeeping in __slots__ (nothing tree-related lives in the
+    instance dictionary)."""
+
+    __slots__ = ("_NodeMixin__parent", "_NodeMixin__children", "name")
+
+    def __init__(self, name=None, parent=None, children=None):
+        self.name = name
+        self.parent = parent
+        if children:
+            self.children = children
+
+    def __repr__(self):
+        return "SlotStoreNM(%r)" % (self.name,)
+
+
+class StrBoomNM(NodeMixin):
+    """repr() works, str()/format() do not (a __str__ that returns a non-string id, say)."""
+
+    def __init__(self, name=None, parent=None, children=None):
+        self.name = name
+        self.parent = parent
+        if children:
+            self.children = children
+
+    def __repr__(self):
+        return "StrBoomNM(%r)" % (self.name,)
+
+    def __str__(self):
+        raise ReprBoomError("str() of node %s was evaluated" % (self.name,))
+
+    __format__ = lambda self, spec: self.__str__()  # noqa: E731
+
+
 class BoomReprNM(NodeMixin):
     """A node class whose repr()/str() cannot be evaluated (it prints data that refers back to the node, or an attribute
     that is not set yet): successful operations never need the text of a node."""
@@ -390,8 +424,12 @@ def factory(clsname):
     if clsname == "ShadowData":
         # ordinary nodes whose DATA happens to use the names of the read-only navigation attributes (a file listing
         # with size/path/depth columns): keyword attributes go into the instance dictionary, the properties still win
-        data = {"size": 2048, "height": 80, "depth": 7, "leaves": "oak", "descendants": (), "path": "/tmp/x", "ancestors": None, "root": "sqrt", "is_leaf": "maybe", "is_root": 0, "siblings": 3, "anchestors": 1}
+        data = {"size": 2048, "height": 80, "depth": 7, "leaves": "oak", "descendants": (), "path": "/tmp/x", "ancestors": None, "root": "sqrt", "is_leaf": "maybe", "is_root": 0, "siblings": 3, "anchestors": 1, "node": "not a node", "filter_": 0, "stop": 1, "maxlevel": 2, "style": None, "childiter": "x", "target": "data"}
         return lambda label: (Node(str(label), **data) if int(label) % 2 else AnyNode(name=str(label), **data))
+    if clsname == "SlotStoreNM":
+        return lambda label: SlotStoreNM(str(label))
+    if clsname == "StrBoom":
+        return lambda label: StrBoomNM(str(label))
     if clsname == "BoomRepr":
         return lambda label: BoomReprNM(str(label))
     if clsname == "LateSuperNM":
@@ -438,4 +476,4 @@ def factory(clsname):
 # classes with their own __eq__/__hash__/__bool__/__len__ are ordinary users of the mixins: every property that
 # quantifies over "all trees" holds for them too (the harness itself only ever uses identity on nodes)
 SPECIAL_CLASSES = ["EqNode", "FalsyNode", "LenNode", "EqSlotLM", "ListNode", "TupleNode", "TupleNameNode"]
-TREE_CLASSES = ["Node", "AnyNode", "PlainNM", "SlotLM", "DictLM", "SymlinkNode", "MixNM", "MixLM", "ShadowData"] + SPECIAL_CLASSES
+TREE_CLASSES = ["Node", "AnyNode", "PlainNM", "SlotLM", "DictLM", "SymlinkNode", "MixNM", "MixLM", "ShadowData", "SlotStoreNM"] + SPECIAL_CLASSES
